@@ -187,7 +187,12 @@ def register(R):
         s = R.spec(key(cname, "exit"), arg_types={"next_state": VST()})
         s.opaque = True
         if cname == "ServicingPoolingTrip":
-            s.assume_only("pooling state exit: body out of reach (zip(*plan), reduce over symbolic plan)")
+            # verified from its body: leaves the state untouched, and lets the vehicle go only when the plan is finished or
+            # the pooling trip is being re-planned (next activity DispatchPoolingTrip) -- C03 for pooled passengers
+            s.ensures("state_untouched", lambda a, r: Implies(ok(r), r[1].val() == a.sim), ("C03", "C02", "C09"))
+            s.ensures("no_diversion_unless_replanned", lambda a, r: And(r[0].is_none(), Iff(
+                r[1].is_some(), Or(a.self.trip_plan.len() == 0, a.next_state.is_a("DispatchPoolingTrip")))), ("C03",))
+            s.no_raise(("C03",))
         else:
             # DispatchPoolingTrip.exit is verified from its body (contracts/pooling.py: modify_vehicle_assignment); with an
             # empty plan the body raises at `req_ids, _ = tuple(zip(*plan))` -- enter refuses empty plans, no_raise not claimed
@@ -201,13 +206,22 @@ def register(R):
             s.ensures("never_refuses", lambda a, r: Or(ok(r), failed(r)), ("C17", "C09"))
         s.requires("wf", WF_PRE)
         s.ensures("shape", SHAPE)
-        s.ensures("frame", (lambda cname: lambda a, r: Implies(ok(r), And(
-            same_except(r[1].val(), a.sim, ["requests"] if cname == "ServicingPoolingTrip" else ["requests", "r_locations", "r_search"]),
-            wf(r[1].val()))))(cname))
+        s.ensures("frame", lambda a, r: Implies(ok(r), And(
+            same_except(r[1].val(), a.sim, ["requests"]), wf(r[1].val()))))
         s = R.spec(key(cname, "enter"))
         s.opaque = True
         if cname == "ServicingPoolingTrip":
-            s.assume_only("pooling state enter: body out of reach (zip(*plan), reduce over symbolic plan)")
+            def sp_enter_pickup(a, r):
+                # verified from the body: entered only from DispatchPoolingTrip; the first request of the plan is picked up --
+                # it was waiting, is removed from the waiting set, and its fare is credited to this vehicle, once
+                plan = a.self.trip_plan
+                rid = plan[0][0]
+                veh = a.sim.vehicles.get(a.self.vehicle_id).val()
+                s2 = r[1].val()
+                return Implies(ok(r), And(plan.len() > 0, veh.vehicle_state.is_a("DispatchPoolingTrip"),
+                                          a.sim.requests.has(rid), Not(s2.requests.has(rid)),
+                                          s2.vehicles.get(a.self.vehicle_id).val().balance == veh.balance + a.sim.requests.get(rid).val().value))
+            s.ensures("first_request_picked_up_fare_credited_once", sp_enter_pickup, ("C03", "C05"))
         else:
             def dp_enter(a, r):
                 # verified from the body: every request of the plan is waiting, admits this vehicle (C10) and carries this
